@@ -19,7 +19,7 @@ proves that every state `Model.newAppend` returns satisfies `Inv`.  Here the thr
                       `runCalls`) speak about the run of the translated code.
 
 Hypotheses: those of the two ties - `NamesFit` (a decoded name's length fits `usize`), the archive is shorter
-than 2^64 bytes, `ext.accept b = b.length`, admissible calls, and the `Nat`/`u64` side conditions `FitsRun` along
+than 2^64 bytes, `AccOk ext.accept` (helper t6w5: no longer `ext.accept b = b.length`), admissible calls, and the `Nat`/`u64` side conditions `FitsRun` along
 the generated run (re-assumed before every call, as in `grun_sim`).
 -/
 set_option linter.unusedVariables false
@@ -54,7 +54,7 @@ theorem new_append_no_panic (hn : NamesFit) (fa : Option Nat) (d : Dev) (hd : d.
   exact this rfl
 
 /-- **Append scenario, script level.** -/
-theorem append_grun_sim (ext : Rs.S.Ext) (hacc : ∀ b, ext.accept b = b.length) (calls : List GCall)
+theorem append_grun_sim (ext : Rs.S.Ext) (hacc : AccOk ext.accept) (calls : List GCall)
     (hadm : ∀ c ∈ calls, (toCall c).Admissible) (hn : NamesFit)
     (fa : Option Nat) (d : Dev) (hd : d.buf.length < 2 ^ 64)
     (g : Gen.ZipWriter) (d1 : Dev) (h : Gen.ZipWriter.new_append fa d = (.ok g, d1))
